@@ -94,9 +94,40 @@ def chartable(rep, lg, mod):
     # render string
     g = lg.func('mv_str')
     strs = [n.value.value for n in ast.walk(g) if isinstance(n, ast.Starred) and isinstance(n.value, ast.Constant) and isinstance(n.value.value, str)]
-    if len(strs) != 1:
-        raise ModelError('mv_str: render string [*"..."] not found')
-    render = strs[0]
+    if len(strs) == 1:
+        render = strs[0]
+    else:
+        # the table is built some other way: evaluate the second argument of np.choose (Engine M; np.array(x, dtype=...) is x)
+        from kvstatic import minieval
+        ch = [c for c in find_all(g, ast.Call) if call_name(c) == 'np.choose' and len(c.args) == 2]
+        if len(ch) != 1:
+            raise ModelError('mv_str: render table (second argument of np.choose) not found')
+        env = {}
+        for st in mod.tree.body:      # module-level tables the function may refer to
+            if isinstance(st, ast.Assign) and len(st.targets) == 1 and isinstance(st.targets[0], ast.Name):
+                try:
+                    env[st.targets[0].id] = minieval.ev(st.value, env)
+                except (ModelError, Exception):  # noqa: BLE001 - not a plain table
+                    pass
+        table = None
+        try:
+            for st in body_no_doc(g):
+                if any(n is ch[0] for n in ast.walk(st)):
+                    arg = ch[0].args[1]
+                    while isinstance(arg, ast.Call) and call_name(arg) in ('np.array', 'np.asarray') and arg.args:
+                        arg = arg.args[0]
+                    table = minieval.ev(arg, env)
+                    break
+                if isinstance(st, ast.Assign) and len(st.targets) == 1 and isinstance(st.targets[0], ast.Name):
+                    v = st.value
+                    while isinstance(v, ast.Call) and call_name(v) in ('np.array', 'np.asarray') and v.args:
+                        v = v.args[0]
+                    env[st.targets[0].id] = minieval.ev(v, env)
+        except ModelError as e:
+            raise ModelError(f'mv_str: render table outside the evaluator subset: {e}')
+        if not (isinstance(table, (list, tuple, str)) and all(isinstance(x, str) and len(x) == 1 for x in table)):
+            raise ModelError('mv_str: render table does not evaluate to a sequence of characters')
+        render = ''.join(table)
     ok = len(render) == 8
     for name, val in sorted(lg.consts.items(), key=lambda kv: kv[1]):
         ch = render[val] if val < len(render) else None
